@@ -33,7 +33,11 @@ def run(tier, replay_file=None):
     run = C.Run(PID, tier, "model_checking")
     cases = replay(run, "MC_Pattern_q.cfg" if tier == "quick" else "MC_Pattern_t.cfg", "c11_exh")
     cases += replay(run, "MC_Pattern_family.cfg", "c11_family")
-    run.evaluations = len(cases)
+    # the record's own fields at the edges of their types under every kind of width spec (FieldWidths.tla): no panic
+    wc, wm, _, _ = C.emit_and_replay(run, "MC_FieldWidths", "MC_FieldWidths.cfg", "c11_fields", ["fieldwidths"], timeout=600, workers=2)
+    for m in wm:
+        run.mismatch({"kind": m["mismatch"]["what"], "input": m["mismatch"].get("pattern", "")}, m)
+    run.evaluations = len(cases) + len(wc)
     run.nontrivial = sum(1 for c in cases if "<ERR>" in c["out"])
     if not run.mismatches and run.nontrivial < 1000:
         raise C.ToolError("vacuous run")
